@@ -7,6 +7,7 @@ n="$1"; id="$2"; wt=/tmp/wt/$n; out=$wt/_out
 cd $wt || exit 2
 rm -rf src/hydrodiy/io/tests/run_scripts
 git checkout -q -- . 2>/dev/null
+cp /repo/src/*.so $wt/src/    # extensions matching the current /repo sources
 git apply --check $out/patch.diff || { echo "FAIL: patch does not apply on clean tree"; exit 1; }
 if grep -q '^+++ .*\.[ch]$' $out/patch.diff; then ./rebuild_ext.sh >/dev/null 2>&1 || { echo "FAIL: C build (clean)"; exit 1; }; fi
 PYTHONPATH=$wt/src /venv/bin/python $out/demo.py >/tmp/wt/$n.demo0.log 2>&1; r0=$?
